@@ -128,21 +128,33 @@ ENGINES = [
     ("cmp", ["C13", "C14"], "operand pools over small value domains; all ordered pairs and triples across operand kinds, capacities, junk patterns, arenas and allocator types"),
     ("ref", ["C11"], "writes through one access path cross-read through all others, reference assignment / swap, permuting algorithms and iterator arithmetic against a model"),
     ("elem", ["C12"], "pool of ContiguousElements next to a source vector: constructions, assignments, swaps, element <-> reference assignment, mutations, all monitors after every step"),
+    ("emplace", ["C15"], "finite grid of type pairs x source forms x parameter kinds x lengths, C++17 and C++20 builds, stored values against static_cast<T>(source item)"),
+    ("fault", ["C17"], "allocation-failure enumeration: every allocation of every operation fails in turn from identical generated pre-states"),
+    ("race", ["C19"], "multi-threaded const use of shared vectors / elements with writers on private copies under ThreadSanitizer (g++ and clang++)"),
 ]
 ENGINE_OF = {p: "hist" for p in HIST_PROPS}
-ENGINE_OF.update({"C20": "matrix", "C13": "cmp", "C14": "cmp", "C11": "ref", "C12": "elem"})
+ENGINE_OF.update({"C20": "matrix", "C13": "cmp", "C14": "cmp", "C11": "ref", "C12": "elem", "C15": "emplace", "C17": "fault", "C19": "race"})
 CLAIMED = sorted(ENGINE_OF)
-LEVEL = {}
-LEVEL_TEXT = {"C20": "Exhaustive over a declared finite matrix (operation x parameter-list category x value-type category x allocator kind): every cell is compiled with two compilers and the compiled cell is executed under ASan/UBSan and the ledger with a postcondition. Ill-formedness is a build-time observation of the generated unit (the honest limit of this family for C20, see DESIGN.md)."}
-LEVEL_NOTE = {"C20": "Trusted: g++ 12 and clang++ 14 as arbiters of well-formedness, the curated representative parameter list per category (thorough adds sampled lists and all allocator kinds), the harness postconditions."}
+LEVEL = {"C17": "fault_enumeration"}
+LEVEL_TEXT = {
+    "C20": "Exhaustive over a declared finite matrix (operation x parameter-list category x value-type category x allocator kind): every cell is compiled with two compilers and the compiled cell is executed under ASan/UBSan and the ledger with a postcondition. Ill-formedness is a build-time observation of the generated unit (the honest limit of this family for C20, see DESIGN.md).",
+    "C15": "Exhaustive enumeration of a declared finite grid (21 type pairs x 13 source forms x 2 parameter kinds x 6 lengths x 2 language standards), each cell executed under ASan/UBSan with the stored values compared against T(source item) and the source inspected afterwards.",
+    "C17": "Fault enumeration: for each sampled pre-state EVERY allocation the operation performs is failed in turn (exhaustive over the fault index, sampled over pre-states and parameter lists); ledger, object registry and public API decide the outcome.",
+    "C19": "Exploration of schedules by stress: 8 to 16 unsynchronised threads, millions of overlapping const operations under ThreadSanitizer with two compilers. No race observed is not a proof of race freedom; sensitivity is shown by a mutant that caches size() in a mutable member.",
+}
+LEVEL_NOTE = {"C20": "Trusted: g++ 12 and clang++ 14 as arbiters of well-formedness, the curated representative parameter list per category (thorough adds sampled lists and all allocator kinds), the harness postconditions.",
+              "C19": "Trusted: ThreadSanitizer's happens-before detection (it only sees accesses that execute), relaxed-atomic activity counters of the harness (no synchronisation edges), std::string / scalar value types."}
 TECHNIQUE = {
     "C20": "runtime monitoring of generated instantiation units: each operation cell compiled (g++, clang++) then executed under ASan/UBSan + ledger allocator with postconditions",
     "C13": "runtime monitoring: ==/!= on enumerated operand pairs (13 operand-kind combinations, 3 junk patterns, 2 capacities, 2 allocator types) against field-wise equality of a model, under ASan/UBSan",
     "C14": "runtime monitoring: the six relational operators on enumerated operand pairs and triples checked against the order axioms, operand-kind independence and lexicographical comparison under the observed element-level <",
     "C11": "runtime monitoring: model-based cross-read of every access path after writes, reference assignment / swap and std permuting algorithms; iterator arithmetic vs index arithmetic for all index pairs; ASan/UBSan + object registry",
     "C12": "runtime monitoring: model comparison of a pool of elements and their source vector after every construction / assignment / swap, with allocator-identity, block-ownership, layout, object-registry and ledger monitors under ASan/UBSan",
+    "C15": "runtime monitoring: exhaustive source-form x type-pair grid executed under ASan/UBSan, stored values vs static_cast<T>(source), move/copy counting value type, counting input iterator",
+    "C17": "fault injection at the allocator (every allocation index in turn) with ledger-balance, object-registry and operand-validity monitors under ASan/UBSan",
+    "C19": "ThreadSanitizer (g++ and clang++) on a multi-threaded const-use stress harness with overlap accounting",
 }
-NOT_APPLICABLE = [{"property_id": p, "reason": "check under construction in this round (engine not built yet); see DESIGN.md section 5"} for p in ["C15", "C17", "C19"]]
+NOT_APPLICABLE = []
 
 
 def tier_limits(tier):
@@ -474,12 +486,44 @@ def run_fault_check(tier):
                        assumptions=["only allocator failures are injected (C17 says nothing about throwing value types)", "the allocator throws std::bad_alloc, as std::allocator does"])
 
 
+# ---------------------------------------------------------------------------------------------- C19 race
+RACE_CONFIGS = ["P:u32,P:f32", "P:u32,F:f32", "P:u32,C:u64@8,V:f32", "C:u64@8,V:str,P:str", "F:str,P:str", "F:f32,P:u32,C:u64@8,V:f32", "P:char,P:u32@8", "C:u8,V:u8,P:u16@4",
+                "P:B3,P:B12@4", "F:u8,C:u8,V:u8", "P:u32,C:u64@8,V:f32@8,C:u64@8,V:f32@16", "F:f32@8,P:u32@16,F:f32"]
+RACE_RULE = "per case 2 shared const vectors and 1 shared element; reader threads loop over const operations (element access, iteration, size / capacity / data queries, all comparisons, copy construction, element construction from references) picked at random with no synchronisation between operations, writer threads mutate private copies (re-copied from the shared vectors); ThreadSanitizer (g++ and clang++) reports with a cntgs:: frame are violations; non-trivial: >= 20 distinct ordered pairs of operation kinds were observed overlapping in time (relaxed atomic activity counters); distinct: (configuration, seed, case)"
+
+
+def race_units(tier, seed):
+    configs = RACE_CONFIGS[:6] if tier == "quick" else RACE_CONFIGS
+    units = []
+    threads, rounds, cases = (8, 4000, 6) if tier == "quick" else (16, 20000, 10)
+    if os.environ.get("VERIF_CASES"):
+        cases = int(os.environ["VERIF_CASES"])
+    for cfg in configs:
+        for fl in ["tsan", "ctsan"]:
+            units.append(Unit("race", cfg, "std", fl, {"seed": seed, "threads": threads, "rounds": rounds}, cases, batch=2 if tier == "quick" else 5))
+    return units
+
+
+def run_race_check(tier):
+    t0 = time.time()
+    units = race_units(tier, vf.SEED)
+    errs = vf.run_units(units)
+    # a report without a cntgs:: frame is the harness's own race: the run proves nothing
+    for u in units:
+        for ev in u.events:
+            if ev.get("props") == "HARNESS":
+                u.errors.append("ThreadSanitizer report without a cntgs:: frame (harness / libstdc++): " + ev.get("frame", ""))
+    return vf.conclude("C19", tier, "exploration", units, errs, RACE_RULE, t0,
+                       assumptions=["ThreadSanitizer sees only races between accesses that actually execute in the run", "value types are scalars, trivially copyable structs and std::string (the instrumented type's registry is not thread-safe and is not used here)"])
+
+
 def setup():
     units = []
     for prop in ["C01"]:
         units += hist_units(prop, "quick", vf.SEED)
     units += matrix_units("quick", vf.SEED)
     units += cmp_units("C13", "quick", vf.SEED) + ref_units("quick", vf.SEED) + elem_units("quick", vf.SEED)
+    units += emplace_units("quick", vf.SEED) + fault_units("quick", vf.SEED) + race_units("quick", vf.SEED)
     errs = []
     t0 = time.time()
     import concurrent.futures as cfu
@@ -513,6 +557,8 @@ def units_for(prop, tier, seed):
         return emplace_units(tier, seed)
     if prop == "C17":
         return fault_units(tier, seed)
+    if prop == "C19":
+        return race_units(tier, seed)
     raise KeyError(prop)
 
 
@@ -531,6 +577,8 @@ def run_check(prop, tier):
         return run_emplace_check(tier)
     if prop == "C17":
         return run_fault_check(tier)
+    if prop == "C19":
+        return run_race_check(tier)
     sys.stderr.write("no check for %s\n" % prop)
     return 2
 
